@@ -13,6 +13,7 @@ All statements are for every field value within its width (no sampling, no size 
 -/
 import FlexModel.Wire.PacketLemmas
 import FlexModel.Wire.Rx
+import FlexModel.Wire.Snap
 
 namespace Props.C02
 open FlexModel.Wire FlexModel.Wire.Spec Generated.WireEnums
@@ -1119,5 +1120,97 @@ theorem rx_shared_context_witness :
     (rxRun false RxStore.empty evs).map (fun o => (o.1, o.2.toOption)) = [(1, some [18, 0, 105, 4, 3, 129, 0, 7])] ∧
     (rxRun true RxStore.empty evs).map (fun o => (o.1, o.2.toOption)) = [(1, some [17, 0, 105, 4, 32, 81, 2])] := by
   decide +kernel
+
+/-! ## 13. A location-table position vector copied into a header while receive threads replace it: the DE PV on the wire is
+ONE vector the table held (`FlexModel/Wire/Snap.lean`; all schedules = all histories `h` and all load instants `ts`) -/
+
+/-- regenerated structural fact (ast pass over geonet/router.py on this run, `harness/gen_wire.py: de_pv_copy_facts`): geonet.Router
+has copies of a LocTE position vector into a header (`ShortPositionVector(...)` constructor calls fed from a `.position_vector`
+attribute: `gn_data_request_guc`, the LS reply of `gn_data_indicate_ls_request`, the DE PV refresh of the GUC / LS-reply
+forwarders), and the four fields of EVERY such copy derive from ONE load of the attribute.  Reading GN_ADDR, TST, latitude and
+longitude through four loads of `de_entry.position_vector` (seeded change C02-m8) re-opens this obligation and with it the
+`…_any_schedule` theorems below -/
+theorem de_pv_copies_single_load : codeDePvSingleLoad = true := by decide
+
+/-- **the copied vector is ONE vector the table held**: for every copy site of the source, whatever the history `h` of vectors
+the entry holds while other threads replace it, whenever the loads happen (`ts`) and whichever load serves which field (`ld`,
+below the load count of the source): the Short Position Vector written into the header is the short form of the vector held
+at the instant of the load -/
+theorem de_pv_is_a_table_vector (f : String) (k n : Nat) (hm : (f, k, n) ∈ Generated.WireFacts.dePvCopies)
+    (ld : Nat → Nat) (hld : ∀ i, ld i < n) (h : Nat → LongPV) (ts : Nat → Nat) :
+    copySeen ld h ts = (h (ts 0)).short := by
+  have hall := de_pv_copies_single_load
+  simp only [codeDePvSingleLoad, Bool.and_eq_true, List.all_eq_true] at hall
+  have hn : n ≤ 1 := by simpa using hall.2 _ hm
+  exact copySeen_of_single_load n hn ld hld h ts
+
+/-- non-vacuity: the four copy sites are in the table, each with ONE load -/
+example : ("gn_data_request_guc", 0, 1) ∈ Generated.WireFacts.dePvCopies ∧
+    ("gn_data_indicate_ls_request", 0, 1) ∈ Generated.WireFacts.dePvCopies ∧
+    ("gn_data_indicate_guc", 0, 1) ∈ Generated.WireFacts.dePvCopies ∧
+    ("gn_data_indicate_ls_reply", 0, 1) ∈ Generated.WireFacts.dePvCopies := by decide
+
+/-- **originated GUC packet under any concurrent reception from the destination** (`gn_data_request_guc`, 10.3.8.2 / table 28):
+the emitted octets are the prescribed packet whose DE PV field is the short form of `h t` for ONE instant `t` — a position
+vector the location table held as a whole -/
+theorem guc_de_pv_any_schedule (v : Variant) (mib : Mib) (hv : v.versionFromMib = true ∨ mib.version = 1) (hm : mib.WF)
+    (r : Request) (hr : r.WF) (hk : v.capped = false ∨ LTSpec.lifetimeMs r.lifetimeMs mib.defaultLifetimeS < 1000000)
+    (hht : r.ht = HeaderType_GEOUNICAST) (sn : Nat) (hsn : sn < 65536) (ego : LongPV) (he : ego.WF)
+    (f : String) (k n : Nat) (hmem : (f, k, n) ∈ Generated.WireFacts.dePvCopies)
+    (ld : Nat → Nat) (hld : ∀ i, ld i < n) (h : Nat → LongPV) (hw : ∀ t, (h t).WF) (ts : Nat → Nat) :
+    ∃ lt, LTSpec.IsLifetimeOctet (LTSpec.lifetimeMs r.lifetimeMs mib.defaultLifetimeS) lt ∧ ∃ t,
+    gucPacket v mib r sn ego (copySeen ld h ts) = .ok (
+      octets basicHeader (basicValues mib.version lt (LTSpec.hopLimit (LTSpec.requestedHops r.maxHopLimit) mib.defaultHopLimit)) ++
+      octets commonHeader (commonValues r.nh 2 r.hst r.tc mib.mobile r.data.length
+        (LTSpec.hopLimit (LTSpec.requestedHops r.maxHopLimit) mib.defaultHopLimit)) ++
+      octets guc ([(sn : Int), 0] ++ ego.fields ++ (h t).short.fields) ++ r.data) := by
+  rw [de_pv_is_a_table_vector f k n hmem ld hld h ts]
+  obtain ⟨lt, hl, e⟩ := guc_conforms v mib hv hm r hr hk hht sn hsn ego he _ ((h (ts 0)).short_wf (hw _))
+  exact ⟨lt, hl, ts 0, e⟩
+
+/-- **LS reply under any concurrent reception from the requester** (`gn_data_indicate_ls_request`, 10.3.7.3): DE PV = the short form
+of ONE vector the requester's entry held -/
+theorem ls_reply_de_pv_any_schedule (v : Variant) (mib : Mib) (hv : v.versionFromMib = true ∨ mib.version = 1) (hm : mib.WF)
+    (hk : v.capped = false ∨ LTSpec.lifetimeMs none mib.defaultLifetimeS < 1000000) (sn : Nat) (hsn : sn < 65536)
+    (ego : LongPV) (he : ego.WF) (f : String) (k n : Nat) (hmem : (f, k, n) ∈ Generated.WireFacts.dePvCopies)
+    (ld : Nat → Nat) (hld : ∀ i, ld i < n) (h : Nat → LongPV) (hw : ∀ t, (h t).WF) (ts : Nat → Nat) :
+    ∃ lt, LTSpec.IsLifetimeOctet (LTSpec.lifetimeMs none mib.defaultLifetimeS) lt ∧ ∃ t,
+    lsReplyPacket v mib sn ego (copySeen ld h ts) = .ok (
+      octets basicHeader (basicValues mib.version lt mib.defaultHopLimit) ++
+      octets commonHeader (commonValues 0 6 1 (tcOfOctet mib.defaultTc) mib.mobile 0 mib.defaultHopLimit) ++
+      octets lsReply ([(sn : Int), 0] ++ ego.fields ++ (h t).short.fields)) := by
+  rw [de_pv_is_a_table_vector f k n hmem ld hld h ts]
+  obtain ⟨lt, hl, e⟩ := ls_reply_conforms v mib hv hm hk sn hsn ego he _ ((h (ts 0)).short_wf (hw _))
+  exact ⟨lt, hl, ts 0, e⟩
+
+/-- **DE PV refresh of the GUC forwarder under any concurrent reception from the destination** (`gn_data_indicate_guc`, 10.3.8.3
+step 8; the LS-reply forwarder has the same shape: `forward_ls_reply`): the forwarded packet is the received one with RHL − 1
+and a DE PV that is the short form of ONE vector the destination's entry held -/
+theorem forward_guc_refresh_any_schedule (bh : BasicHeader) (wb : bh.WF) (h2 : 2 ≤ bh.rhl) (ch : CommonHeader) (wc : ch.WF)
+    (fc : ch.FlagsConformant) (ht : ch.ht = HeaderType_GEOUNICAST) (ext : GUCExt) (we : ext.WF) (payload : Bytes)
+    (f : String) (k n : Nat) (hmem : (f, k, n) ∈ Generated.WireFacts.dePvCopies)
+    (ld : Nat → Nat) (hld : ∀ i, ld i < n) (h : Nat → LongPV) (hw : ∀ t, (h t).WF) (ts : Nat → Nat) :
+    ∃ t, forwardPacket (some (copySeen ld h ts))
+        (toBytesBE 4 bh.encodeInt ++ (toBytesBE 8 ch.encodeInt ++ (ext.octets [] ++ payload))) =
+      .ok (some (toBytesBE 4 (decRhl bh).encodeInt ++ (toBytesBE 8 ch.encodeInt ++
+        (({ ext with dePv := (h t).short } : GUCExt).octets [] ++ payload)))) := by
+  rw [de_pv_is_a_table_vector f k n hmem ld hld h ts]
+  refine ⟨ts 0, ?_⟩
+  have e := forward_guc (some (h (ts 0)).short) (fun p hp => by cases hp; exact (h (ts 0)).short_wf (hw _))
+    bh wb h2 ch wc fc ht ext we payload
+  simpa using e
+
+/-- **four loads (C02-m8)**: the destination moves north-east, every beacon replaces the entry's vector (`hist t`: TST, latitude
+and longitude all advance).  GN_ADDR, TST, latitude, longitude read through four loads at four instants: the DE PV carries the
+timestamp of the second vector, the latitude of the third and the longitude of the fourth — equal to the short form of NO vector
+the table ever held -/
+theorem de_pv_torn_witness :
+    let a : GNAddr := ⟨0, 5, 3⟩
+    let hist : Nat → LongPV := fun t => ⟨a, 1000 + 100 * t, 415500000 + 1000 * (t : Int), 21000000 + 3000 * (t : Int), true, 800, 450⟩
+    copySeen id hist id = ⟨a, 1100, 415502000, 21009000⟩ ∧ ∀ t, copySeen id hist id ≠ (hist t).short := by
+  refine ⟨by simp [copySeen], ?_⟩
+  intro t e
+  simp only [copySeen, LongPV.short, id, ShortPV.mk.injEq] at e
+  omega
 
 end Props.C02
